@@ -140,7 +140,10 @@ def run_harness(binp, tag, beh_path, trace_path, timeout=3600):
         start = nxt
 
 
-TLC_JAVA_OPTS = "-Xss1g -XX:+UseParallelGC"
+# TLC's scratch directories go under work/ (not /tmp)
+_TLC_TMP = os.path.join(WORK, "tmp")
+os.makedirs(_TLC_TMP, exist_ok=True)
+TLC_JAVA_OPTS = "-Xss1g -XX:+UseParallelGC -Djava.io.tmpdir=" + _TLC_TMP
 
 
 def tlc_cmd(workers, cfg, module, metadir, extra=()):
